@@ -414,9 +414,27 @@ namespace occa {
       if (!count) {
         return pout;
       }
-      pout << quals[0];
-      for (int i = 1; i < count; ++i) {
-        pout << ' ' << quals[i];
+
+      // class, enum, struct and union belong to the type name that follows the
+      // qualifiers: [struct S const *p] is stored as {struct, const} and must
+      // not be printed as [struct const S * p]
+      const udim_t typeKeys = (qualifierType::class_  |
+                               qualifierType::enum_   |
+                               qualifierType::struct_ |
+                               qualifierType::union_);
+      bool isFirst = true;
+      for (int pass = 0; pass < 2; ++pass) {
+        for (int i = 0; i < count; ++i) {
+          const bool isTypeKey = (quals[i].qualifier->type() & typeKeys);
+          if (isTypeKey != (pass == 1)) {
+            continue;
+          }
+          if (!isFirst) {
+            pout << ' ';
+          }
+          pout << quals[i];
+          isFirst = false;
+        }
       }
       return pout;
     }
